@@ -8,7 +8,7 @@ SPEC = dict(
     rule="an evaluation is one (configuration, condition, stored point) triple: the point was routed by the real writer, "
          "the condition mapped to shards by the real planner + cluster shard mapper (and, for parenthesised 3-atom trees, "
          "once more by ShardGroupInfo.TargetShards on the ParenExpr-free tree), and the point is checked against the shard set; "
-         "write-side evaluations are (configuration, batch order, point) routings. distinct_nontrivial = distinct "
+         "write-side evaluations are (configuration, write request, row) routings, including requests that interleave rows of three measurements with different measurement-level shard keys. distinct_nontrivial = distinct "
          "(configuration, condition) pairs whose condition is neither always-true nor always-false on the stored point set "
          "AND whose mapped shard set is strictly smaller than the shards of the groups overlapping the query's time range "
          "(pruning removed at least one shard)",
@@ -40,9 +40,9 @@ MANIFEST = dict(
               "decides which stored points a query must reach",
     text="Every configuration of a finite grid (1-4 shards per group via data nodes / partitions per node, group duration 1h/24h, hash with every "
          "SHARDS n and range sharding with every choice of split points after a real ReSharding, shard key none/[host]/[region]/[host,region] declared on "
-         "the measurement or the database) is built with the meta server's own commands. All points (tags host x region incl. absent tags, field usage, "
+         "the measurement or the database) is built with the meta server's own commands. Three measurements with different measurement-level shard keys share the policy. All points (tags host x region incl. absent tags, field usage, "
          "timestamps on and +-1ns around every group boundary and the re-sharding split) go through the real PointsWriter in several batch orders: each accepted "
-         "point must reach exactly one shard, of a group whose [start,end) contains its time, the same shard on every repeat. Every WHERE tree of <= 3 atoms "
+         "point must reach exactly one shard, of a group whose [start,end) contains its time, the same shard on every repeat - alone, in single-measurement requests and in requests mixing the measurements in every sequence; no row that carries its measurement's key tags may be rejected. Every WHERE tree of <= 3 atoms "
          "(tag =, !=, =~, field comparison, time bounds; AND/OR; all parenthesisations) is planned by the real planner and shard mapper: every stored point that "
          "satisfies the query by direct evaluation must lie in a consulted shard. Exhaustive within these bounds.",
     note="Trusts: Go runtime; the harness's tiny evaluator and the stated language semantics (time range = intersection of time comparisons; `%left AND OR`); "
